@@ -132,6 +132,19 @@ func (cl *Cluster) mutate(prev *EpochRef, e uint32) ([]uint32, []uint64) {
 			f := 500 + sim.Mix(h, uint64(i))%500
 			ws[i] = ws[i]*f/1000 + 1
 		}
+	case 3: // stake moves between the same validators: same members, same total, another distribution
+		if len(ws) >= 2 {
+			for round := 0; round < len(ws); round++ {
+				a := int(sim.Mix(h, uint64(2*round)) % uint64(len(ws)))
+				b := int(sim.Mix(h, uint64(2*round+1)) % uint64(len(ws)))
+				if a == b || ws[a] < 2 {
+					continue
+				}
+				d := 1 + sim.Mix(h, uint64(100+round))%(ws[a]-1)
+				ws[a] -= d
+				ws[b] += d
+			}
+		}
 	case 2: // membership change: drop one (if possible) and/or add a spare id
 		if len(ids) > 1 && h%2 == 0 {
 			j := int(sim.Mix(h, 7) % uint64(len(ids)))
